@@ -188,6 +188,13 @@ private:
       transportConfig.clientTls.enabled = true;
       transportConfig.clientTls.defaultMode = TlsMode::Client;
       transportConfig.clientTls.verifyPeer = _tlsConfig.verifyPeer;
+      // Hand the rest of the TLS configuration to the transport as well: without
+      // this the configured CA file was ignored (verification silently used the
+      // process-wide default store instead) and a configured client certificate
+      // was never presented.
+      transportConfig.clientTls.caFile = _tlsConfig.caFile;
+      transportConfig.clientTls.certFile = _tlsConfig.clientCertFile;
+      transportConfig.clientTls.keyFile = _tlsConfig.clientKeyFile;
 
       _transport = Transport::tcp(transportConfig); // HTTP client is TCP (S-3: shared_ptr factory)
       auto startResult = _transport->start();
